@@ -23,6 +23,7 @@ type Mutex struct {
 	real  sync.Mutex
 	held  bool
 	simul bool
+	owner *sim.Sim // the simulation under which it was locked
 	wait  chan struct{}
 }
 
@@ -44,7 +45,7 @@ func (m *Mutex) Lock() {
 		s.Park(t.Node, t.Name) // acquiring is a preemption point
 		s.Lock()
 		if !m.held {
-			m.held, m.simul = true, true
+			m.held, m.simul, m.owner = true, true, s
 			s.Unlock()
 			return
 		}
@@ -68,16 +69,18 @@ func (m *Mutex) TryLock() bool {
 	if m.held {
 		return false
 	}
-	m.held, m.simul = true, true
+	m.held, m.simul, m.owner = true, true, s
 	return true
 }
 
 func (m *Mutex) Unlock() {
-	s := verifrt.Active()
-	if s == nil || !m.simul {
+	// unlock the way it was locked, even if the simulation has been
+	// deactivated in between (a task unwinding during teardown)
+	if !m.simul {
 		m.real.Unlock()
 		return
 	}
+	s := m.owner
 	s.Lock()
 	if !m.held {
 		s.Unlock()
